@@ -304,3 +304,180 @@ def wf_stager(s):
 def stager_bounded(s):
     """memory bound of the staging buffer: within the byte limit, except for a single record that alone exceeds it"""
     return s._bytes <= s.byte_limit or len(s._buf) <= 1
+
+
+# ---------------------------------------------------------------- C15: OrderedDict TTL/LRU caches (engine/cache.py)
+
+@spec
+def okeys(d):
+    """keys of an insertion-ordered map, oldest first"""
+    return list(d.keys())
+
+
+@spec
+def wf_nscache(s):
+    """representation invariant of _NamespaceCache (capacity from the validated config is >= 0)"""
+    return s._max >= 0 and len(s._d) <= s._max
+
+
+@spec
+def ttl_fresh(ttl, now, ts):
+    """an entry stamped ts is still served at clock reading now (ttl == 0 disables expiry)"""
+    return ttl == 0 or now - ts <= ttl
+
+
+@spec
+def removed_at(q, oldq, p):
+    """q is oldq with the element at position p removed, order of the others kept"""
+    return (len(q) == len(oldq) - 1 and 0 <= p and p < len(oldq)
+            and forall(i, 0 <= i < len(q), q[i] == ite(i < p, oldq[i], oldq[i + 1])))
+
+
+@spec
+def moved_to_end_at(q, oldq, p):
+    """q is oldq with the element at position p moved to the end (newest), order of the others kept"""
+    return (len(q) == len(oldq) and 0 <= p and p < len(oldq) and q[len(q) - 1] == oldq[p]
+            and forall(i, 0 <= i < len(q) - 1, q[i] == ite(i < p, oldq[i], oldq[i + 1])))
+
+
+@spec
+def same_omap(d, oldd):
+    """ordered map unchanged: same keys, same entries, same recency order"""
+    return seq_eq(d, oldd) and seq_eq(okeys(d), okeys(oldd))
+
+
+@spec
+def suffix_from(q, oldq, off):
+    """q is oldq without its first `off` (oldest) elements"""
+    return len(q) == len(oldq) - off and forall(i, 0 <= i < len(q), q[i] == oldq[i + off])
+
+
+@spec
+def same_entries(d, oldd):
+    """every key of d was in oldd with the same entry (timestamp and value)"""
+    return forall((k, 'Un[K]'), k in d, k in oldd and d[k] == oldd[k])
+
+
+# ---------------------------------------------------------------- C19: reflection
+
+@spec
+def ntokens(s):
+    """number of space separated tokens of a summary ('' has none)"""
+    return ite(s == "", 0, len(s.split(" ")))
+
+
+@spec
+def no_space_in(xs):
+    return forall(i, 0 <= i < len(xs), not (" " in xs[i]))
+
+
+@spec
+def episode_id_of(agent, turn, slot, text):
+    """the reflection episode id as a function of (agent id, turn id, slot, text) only"""
+    return ("refl-" + turn + "-" + agent + "-" + str(slot) + "-" +
+            sha256_hex(agent + "|" + turn + "|" + str(slot) + "|" + text)[:12])
+# ---------------------------------------------------------------- C18: graph evolution layer (gel.py)
+
+@spec
+def esrc(a, b):
+    return ite(a <= b, a, b)
+
+
+@spec
+def edst(a, b):
+    return ite(a <= b, b, a)
+
+
+@spec
+def ekey(a, b):
+    """canonical undirected edge key of the unordered pair {a, b} (ekeyf(s, d) spells s + "→" + d)"""
+    return ekeyf(esrc(a, b), edst(a, b))
+
+
+@spec
+def clampf(x, lo, hi):
+    return ite(x > hi, hi, ite(x < lo, lo, x))
+
+
+@spec
+def below_floor(r0, f, fl):
+    """the decay pass drops the edge record r0: |w * f| < floor"""
+    return absr(r0['weight'] * f) < fl
+
+
+@spec
+def ticked_rec(r0, f, turn):
+    """the edge record r0 after one visit of the decay loop of tick() that keeps it (factor f, optional turn)"""
+    return {'id': r0['id'], 'src': r0['src'], 'dst': r0['dst'], 'weight': r0['weight'] * f, 'rel': r0['rel'],
+            'updated_at': ite(is_none(turn), r0['updated_at'], None),
+            'attrs': {'coact': r0['attrs']['coact'],
+                      'last_seen_turn': ite(is_none(r0['attrs']['last_seen_turn']) and not is_none(turn), turn,
+                                            r0['attrs']['last_seen_turn'])}}
+# ---------------------------------------------------------------- C06: snapshot helpers
+
+@spec
+def clampf_snap(x, lo, hi):
+    return ite(x < lo, lo, ite(x > hi, hi, x))
+
+
+@spec
+def round6(x):
+    """round(x, 6): the engine's uninterpreted `round_nd(x, 6)`; the facts assumed about it are listed in c06_snapshot.ROUND_FACTS"""
+    return round(x, 6)
+
+
+@spec
+def edge_id_of(src, dst, rel):
+    return ite(src <= dst, src + '__' + dst + '__' + rel, dst + '__' + src + '__' + rel)
+
+
+@spec
+def is_snap_name(n):
+    """a numbered snapshot body: snap_<digits>.json"""
+    return n.endswith('.json') and n.startswith('snap_') and n[5:-5].isdigit()
+
+
+@spec
+def snap_num(n):
+    return int_value(n[5:-5])
+
+
+@spec
+def ein_src(e):
+    return e.get('src', '')
+
+
+@spec
+def ein_dst(e):
+    return e.get('dst', '')
+
+
+@spec
+def ein_rel(e):
+    return e.get('rel', 'coact')
+
+
+@spec
+def ein_id(e):
+    """canonical key of an input edge record (eid3 = the opaque view of snapshot._edge_id)"""
+    return eid3(ein_src(e), ein_dst(e), ein_rel(e))
+
+
+@spec
+def edge_sanitized(o, e, wmin, wmax, eps):
+    """o is the record `_sanitize_gel_for_write` emits for the input edge record e"""
+    return (o['src'] == ein_src(e) and o['dst'] == ein_dst(e) and o['rel'] == ein_rel(e)
+            and o['weight'] == san_weight(e.get('weight', 0.0), wmin, wmax, eps)
+            and o['updated_at'] == e.get('updated_at') and same_value(o['attrs'], e.get('attrs', {})))
+
+
+@spec
+def wkey(rec):
+    """store key of an exported weight record"""
+    return (rec['target_kind'], rec['target_id'], rec['attr'])
+
+
+@spec
+def san_weight(w, wmin, wmax, eps):
+    """the weight `_sanitize_gel_for_write` stores for an input weight w"""
+    return ite(absr(round6(clampf_snap(w, wmin, wmax))) < eps, 0.0, round6(clampf_snap(w, wmin, wmax)))
